@@ -40,32 +40,34 @@ theorem frameEq_trans {a b c : BState} (h1 : a.FrameEq b) (h2 : b.FrameEq c) : a
   ⟨h2.1.trans h1.1, h2.2.1.trans h1.2.1, h2.2.2.1.trans h1.2.2.1, h2.2.2.2.trans h1.2.2.2⟩
 
 /-- the chain: never raises; a match makes progress; a miss leaves `line`; the frame is kept -/
-theorem chain_ok (rules : List BRule) (hok : ∀ r ∈ rules, RuleOK r) (s : BState) (line endLine : Nat) :
+theorem chain_ok (P : BState → Nat → Prop) (hP : FrameClosed P) (rules : List BRule) (hok : ∀ r ∈ rules, RuleOK P r)
+    (s : BState) (line endLine : Nat) (hc : CallCtx P s line endLine) :
     ∃ m s', runBlockChain rules s line endLine = .ok (m, s') ∧ s.FrameEq s'
       ∧ (m = true → line < s'.line ∧ s'.line ≤ endLine) ∧ (m = false → s'.line = s.line) := by
   induction rules generalizing s with
   | nil => exact ⟨false, s, rfl, frameEq_refl s, by simp, by simp⟩
   | cons r rest ih =>
     have hr := hok r (by simp)
-    obtain ⟨m, s', hrs⟩ := hr.total s line endLine
+    obtain ⟨m, s', hrs⟩ := hr.total s line endLine hc
     simp only [runBlockChain, hrs]
     cases m with
-    | true => exact ⟨true, s', rfl, hr.frame _ _ _ _ _ hrs, fun _ => hr.progress _ _ _ _ hrs, by simp⟩
+    | true => exact ⟨true, s', rfl, hr.frame _ _ _ _ _ hc hrs, fun _ => hr.progress _ _ _ _ hc hrs, by simp⟩
     | false =>
-      obtain ⟨m2, s2, h2, hf2, hp2, hm2⟩ := ih (fun q hq => hok q (by simp [hq])) s'
-      refine ⟨m2, s2, h2, frameEq_trans (hr.frame _ _ _ _ _ hrs) hf2, hp2, ?_⟩
-      intro hm; rw [hm2 hm]; exact hr.miss _ _ _ _ hrs
+      have hfr := hr.frame _ _ _ _ _ hc hrs
+      obtain ⟨m2, s2, h2, hf2, hp2, hm2⟩ := ih (fun q hq => hok q (by simp [hq])) s' (hc.transfer hP hfr)
+      refine ⟨m2, s2, h2, frameEq_trans hfr hf2, hp2, ?_⟩
+      intro hm; rw [hm2 hm]; exact hr.miss _ _ _ _ hc hrs
 
 /-- if one rule of the chain always matches, the chain matches on every non-empty line -/
-theorem chain_matches (rules : List BRule) (hok : ∀ r ∈ rules, RuleOK r) (hlast : ∃ r ∈ rules, AlwaysMatches r)
-    (s : BState) (line endLine : Nat) (l : BLine) (hl : s.lines[line]? = some l) (hne : l.empty = false)
-    (hlt : line < endLine) :
+theorem chain_matches (P : BState → Nat → Prop) (hP : FrameClosed P) (rules : List BRule) (hok : ∀ r ∈ rules, RuleOK P r)
+    (hlast : ∃ r ∈ rules, AlwaysMatches P r)
+    (s : BState) (line endLine : Nat) (hc : CallCtx P s line endLine) :
     ∃ s', runBlockChain rules s line endLine = .ok (true, s') := by
   induction rules generalizing s with
   | nil => obtain ⟨r, hr, _⟩ := hlast; cases hr
   | cons r rest ih =>
     have hr := hok r (by simp)
-    obtain ⟨m, s', hrs⟩ := hr.total s line endLine
+    obtain ⟨m, s', hrs⟩ := hr.total s line endLine hc
     simp only [runBlockChain, hrs]
     cases m with
     | true => exact ⟨s', rfl⟩
@@ -73,26 +75,26 @@ theorem chain_matches (rules : List BRule) (hok : ∀ r ∈ rules, RuleOK r) (hl
       obtain ⟨q, hq, hqa⟩ := hlast
       simp only [List.mem_cons] at hq
       rcases hq with rfl | hq
-      · obtain ⟨s'', hs''⟩ := hqa s line endLine l hl hne hlt
+      · obtain ⟨s'', hs''⟩ := hqa s line endLine hc
         rw [hs''] at hrs; cases hrs
-      · have hfr := hr.frame _ _ _ _ _ hrs
-        exact ih (fun q' hq' => hok q' (by simp [hq'])) ⟨q, hq, hqa⟩ s' (by rw [hfr.1]; exact hl)
+      · have hfr := hr.frame _ _ _ _ _ hc hrs
+        exact ih (fun q' hq' => hok q' (by simp [hq'])) ⟨q, hq, hqa⟩ s' (hc.transfer hP hfr)
 
 /-- **C01.block_total** — for every chain of rules that satisfy their contracts and contain a
 fallback rule that always matches (the `paragraph` rule: "Supported" configurations keep it
 enabled), every line table with its sentinel entry, every range and every `maxNesting`, the block
 loop returns normally: no exception, no endless loop; and it leaves line tables, `lineMax`,
 `blkIndent` and `level` as it found them (the frame property C07 relies on). -/
-theorem block_total (rules : List BRule) (hok : ∀ r ∈ rules, RuleOK r) (hlast : ∃ r ∈ rules, AlwaysMatches r)
-    (maxNesting : Int) (endLine : Nat) :
+theorem block_total (P : BState → Nat → Prop) (hP : FrameClosed P) (rules : List BRule) (hok : ∀ r ∈ rules, RuleOK P r)
+    (hlast : ∃ r ∈ rules, AlwaysMatches P r) (maxNesting : Int) (endLine : Nat) :
     ∀ (fuel line : Nat) (hasEmpty : Bool) (s : BState), s.lines.length = s.lineMax + 1 → endLine ≤ s.lineMax →
-      endLine - line < fuel →
+      P s endLine → endLine - line < fuel →
       ∃ s', blockLoop rules maxNesting endLine fuel line hasEmpty s = .ok s' ∧ s.FrameEq s' := by
   intro fuel
   induction fuel with
-  | zero => intro line _ s _ _ hf; omega
+  | zero => intro line _ s _ _ _ hf; omega
   | succ n ih =>
-    intro line hasEmpty s hlen hend hf
+    intro line hasEmpty s hlen hend hPs hf
     simp only [blockLoop]
     split
     · rename_i hlt
@@ -106,12 +108,15 @@ theorem block_total (rules : List BRule) (hok : ∀ r ∈ rules, RuleOK r) (hlas
         simp only [hl]
         split
         · exact ⟨_, rfl, ⟨rfl, rfl, rfl, rfl⟩⟩
-        · split
+        · rename_i hnout
+          split
           · exact ⟨_, rfl, ⟨rfl, rfl, rfl, rfl⟩⟩
           · -- run the chain on s1 = { s with line := line1 }
             have hfr1 : s.FrameEq { s with line := line1 } := ⟨rfl, rfl, rfl, rfl⟩
-            obtain ⟨s2, hs2⟩ := chain_matches rules hok hlast { s with line := line1 } line1 endLine l hl hne (by omega)
-            obtain ⟨m, s2', hc, hfr2, hprog, _⟩ := chain_ok rules hok { s with line := line1 } line1 endLine
+            have hctx : CallCtx P { s with line := line1 } line1 endLine :=
+              ⟨hlen, by omega, hend, ⟨l, hl, hne, by simpa using hnout⟩, hP _ _ _ hfr1 hPs⟩
+            obtain ⟨s2, hs2⟩ := chain_matches P hP rules hok hlast { s with line := line1 } line1 endLine hctx
+            obtain ⟨m, s2', hc, hfr2, hprog, _⟩ := chain_ok P hP rules hok { s with line := line1 } line1 endLine hctx
             rw [hs2] at hc
             simp only [Except.ok.injEq, Prod.mk.injEq] at hc
             obtain ⟨rfl, rfl⟩ := hc
@@ -147,21 +152,26 @@ theorem block_total (rules : List BRule) (hok : ∀ r ∈ rules, RuleOK r) (hlas
               rw [he2]
               simp only
               split
-              · obtain ⟨s', hs', hfr'⟩ := ih (s2.line + 1) true { s2 with tight := !hasEmpty, line := s2.line + 1 }
-                  hlen2 hend2 (by omega)
-                exact ⟨s', hs', frameEq_trans ⟨hfr2.1, hfr2.2.1, hfr2.2.2.1, hfr2.2.2.2⟩ hfr'⟩
-              · obtain ⟨s', hs', hfr'⟩ := ih s2.line (hasEmpty || e1) { s2 with tight := !hasEmpty } hlen2 hend2 (by omega)
+              · have hfr4 : s.FrameEq { s2 with tight := !hasEmpty, line := s2.line + 1 } :=
+                  ⟨hfr2.1, hfr2.2.1, hfr2.2.2.1, hfr2.2.2.2⟩
+                obtain ⟨s', hs', hfr'⟩ := ih (s2.line + 1) true { s2 with tight := !hasEmpty, line := s2.line + 1 }
+                  hlen2 hend2 (hP _ _ _ hfr4 hPs) (by omega)
+                exact ⟨s', hs', frameEq_trans hfr4 hfr'⟩
+              · obtain ⟨s', hs', hfr'⟩ := ih s2.line (hasEmpty || e1) { s2 with tight := !hasEmpty } hlen2 hend2
+                  (hP _ _ _ hfr3 hPs) (by omega)
                 exact ⟨s', hs', frameEq_trans hfr3 hfr'⟩
-            · obtain ⟨s', hs', hfr'⟩ := ih s2.line (hasEmpty || e1) { s2 with tight := !hasEmpty } hlen2 hend2 (by omega)
+            · obtain ⟨s', hs', hfr'⟩ := ih s2.line (hasEmpty || e1) { s2 with tight := !hasEmpty } hlen2 hend2
+                (hP _ _ _ hfr3 hPs) (by omega)
               exact ⟨s', hs', frameEq_trans hfr3 hfr'⟩
     · exact ⟨s, rfl, frameEq_refl s⟩
 
 /-- the entry point with the fuel the model gives itself -/
-theorem block_tokenize_total (rules : List BRule) (hok : ∀ r ∈ rules, RuleOK r) (hlast : ∃ r ∈ rules, AlwaysMatches r)
+theorem block_tokenize_total (P : BState → Nat → Prop) (hP : FrameClosed P) (rules : List BRule)
+    (hok : ∀ r ∈ rules, RuleOK P r) (hlast : ∃ r ∈ rules, AlwaysMatches P r)
     (maxNesting : Int) (s : BState) (startLine endLine : Nat) (hlen : s.lines.length = s.lineMax + 1)
-    (hend : endLine ≤ s.lineMax) :
+    (hend : endLine ≤ s.lineMax) (hPs : P s endLine) :
     ∃ s', blockTokenize rules maxNesting s startLine endLine = .ok s' ∧ s.FrameEq s' :=
-  block_total rules hok hlast maxNesting endLine _ startLine false s hlen hend (by omega)
+  block_total P hP rules hok hlast maxNesting endLine _ startLine false s hlen hend hPs (by omega)
 
 /-! ### the inline loop -/
 
